@@ -152,7 +152,7 @@ def _sim_path(path):
 
 
 _REAL = {
-    "listdir": _real_os.listdir, "stat": _real_os.stat, "lstat": _real_os.lstat,
+    "listdir": _real_os.listdir, "scandir": _real_os.scandir, "stat": _real_os.stat, "lstat": _real_os.lstat,
     "remove": _real_os.remove, "unlink": _real_os.unlink, "rename": _real_os.rename,
     "replace": _real_os.replace, "readlink": _real_os.readlink, "io_open": io.open,
     "exists": posixpath.exists, "lexists": posixpath.lexists, "isfile": posixpath.isfile,
@@ -170,7 +170,7 @@ class _ShimPath:
         sp = _sim_path(path)
         if sp is None:
             return _REAL["exists"](path)
-        p = norm(sp)
+        p = self._disk.norm(sp)
         return p in self._disk.files or p in self._disk.dirs
 
     def lexists(self, path):
@@ -180,22 +180,79 @@ class _ShimPath:
         sp = _sim_path(path)
         if sp is None:
             return _REAL["isfile"](path)
-        return norm(sp) in self._disk.files
+        return self._disk.norm(sp) in self._disk.files
 
     def isdir(self, path):
         sp = _sim_path(path)
         if sp is None:
             return _REAL["isdir"](path)
-        return norm(sp) in self._disk.dirs
+        return self._disk.norm(sp) in self._disk.dirs
 
     def getsize(self, path):
         sp = _sim_path(path)
         if sp is None:
             return _REAL["getsize"](path)
-        return len(self._disk.files[norm(sp)])
+        return len(self._disk.files[self._disk.norm(sp)])
 
     def __getattr__(self, name):
         return getattr(posixpath, name)
+
+
+class _DirEntry:
+    """What os.scandir yields, over the simulated disk (type known from the scan itself,
+    as with a real DirEntry: is_dir()/is_file() make no further storage call)."""
+
+    def __init__(self, shim, base, name):
+        self.name = name
+        self.path = posixpath.join(base, name)
+        d = shim._disk
+        full = (_sim_path(base) or "/").rstrip("/") + "/" + name
+        self._link = bool(d.symlinks) and d.norm(full, follow_last=False) in d.symlinks
+        p = d.norm(full)
+        self._dir, self._file = p in d.dirs, p in d.files
+        self._shim = shim
+
+    def is_dir(self, *, follow_symlinks=True):
+        return self._dir and (follow_symlinks or not self._link)
+
+    def is_file(self, *, follow_symlinks=True):
+        return self._file and (follow_symlinks or not self._link)
+
+    def is_symlink(self):
+        return self._link
+
+    def stat(self, *, follow_symlinks=True):
+        return self._shim.stat(self.path) if follow_symlinks else self._shim.lstat(self.path)
+
+    def inode(self):
+        return 0
+
+    def __fspath__(self):
+        return self.path
+
+    def __repr__(self):
+        return "<DirEntry %r>" % (self.name,)
+
+
+class _ScanDir:
+    def __init__(self, entries):
+        self._it = iter(entries)
+
+    def __iter__(self):
+        return self
+
+    def __next__(self):
+        return next(self._it)
+
+    def close(self):
+        self._it = iter(())
+
+    def __enter__(self):
+        return self
+
+    def __exit__(self, *exc):
+        self.close()
+        return False
 
 
 class _ShimOS:
@@ -213,7 +270,7 @@ class _ShimOS:
         if sp is None:
             return _REAL["listdir"](path)
         d = self._disk
-        p = norm(sp)
+        p = d.norm(sp)
         d.call(LISTDIR, p)
         if p in d.files:
             raise NotADirectoryError(errno.ENOTDIR, "Not a directory", path)
@@ -221,12 +278,22 @@ class _ShimOS:
             raise FileNotFoundError(errno.ENOENT, "No such file or directory", path)
         return d.listdir(p)
 
+    def scandir(self, path="."):
+        sp = _sim_path(path)
+        if sp is None:
+            return _REAL["scandir"](path)
+        names = self.listdir(path)          # one LISTDIR call; the simulator owns the order
+        base = _real_os.fspath(path)
+        if isinstance(base, bytes):
+            base = base.decode("utf-8", "surrogateescape")
+        return _ScanDir([_DirEntry(self, base, n) for n in names])
+
     def stat(self, path, *a, **kw):
         sp = _sim_path(path)
         if sp is None:
             return _REAL["stat"](path, *a, **kw)
         d = self._disk
-        p = norm(sp)
+        p = d.norm(sp)
         d.call(STAT, p)
         if p in d.dirs:
             return _StatResult(_stat.S_IFDIR | 0o755)
@@ -235,13 +302,21 @@ class _ShimOS:
         raise FileNotFoundError(errno.ENOENT, "No such file or directory", path)
 
     def lstat(self, path, *a, **kw):
-        if _sim_path(path) is None:
+        sp = _sim_path(path)
+        if sp is None:
             return _REAL["lstat"](path, *a, **kw)
+        if self._disk.symlinks and self._disk.norm(sp, follow_last=False) in self._disk.symlinks:
+            self._disk.call(STAT, self._disk.norm(sp, follow_last=False))
+            return _StatResult(_stat.S_IFLNK | 0o777)
         return self.stat(path)
 
     def readlink(self, path, *a, **kw):
-        if _sim_path(path) is None:
+        sp = _sim_path(path)
+        if sp is None:
             return _REAL["readlink"](path, *a, **kw)
+        p = self._disk.norm(sp, follow_last=False)
+        if p in self._disk.symlinks:
+            return SIM_ROOT + self._disk.symlinks[p]
         raise OSError(errno.EINVAL, "Invalid argument", path)
 
     def remove(self, path, *a, **kw):
@@ -345,10 +420,12 @@ class NativeShim:
             setattr(mod, attr, shim_os if attr == "os" else shim_io)
         self._global = []
         for mod, name, fn in (
-                (_real_os, "listdir", shim_os.listdir), (_real_os, "stat", shim_os.stat),
+                (_real_os, "listdir", shim_os.listdir), (_real_os, "scandir", shim_os.scandir),
+                (_real_os, "stat", shim_os.stat),
                 (_real_os, "lstat", shim_os.lstat), (_real_os, "remove", shim_os.remove),
                 (_real_os, "unlink", shim_os.unlink), (_real_os, "rename", shim_os.rename),
-                (_real_os, "replace", shim_os.replace), (io, "open", shim_io.open),
+                (_real_os, "replace", shim_os.replace), (_real_os, "readlink", shim_os.readlink),
+                (io, "open", shim_io.open),
                 (builtins, "open", shim_io.open),
                 (posixpath, "exists", shim_os.path.exists), (posixpath, "lexists", shim_os.path.lexists),
                 (posixpath, "isfile", shim_os.path.isfile), (posixpath, "isdir", shim_os.path.isdir),
@@ -489,6 +566,9 @@ class RealDisk:
                 _real_os.makedirs(self.root + posixpath.dirname(p), exist_ok=True)
                 with open(self.root + p, "wb") as f:
                     f.write(bytes.fromhex(hx))
+            for l, t in (world.get("symlinks") or {}).items():
+                _real_os.makedirs(self.root + posixpath.dirname(norm(l)), exist_ok=True)
+                _real_os.symlink(self.root + norm(t), self.root + norm(l))
             self.mem = None
         else:
             from fs.memoryfs import MemoryFS
@@ -572,6 +652,13 @@ class _ListingOS:
         if p.startswith(self._disk.root):
             p = p[len(self._disk.root):] or "/"
         return self._disk.permute(norm(p), ents)
+
+    def scandir(self, path="."):
+        ents = {e.name: e for e in _real_os.scandir(path)}
+        p = posixpath.normpath(_real_os.fspath(path))
+        if p.startswith(self._disk.root):
+            p = p[len(self._disk.root):] or "/"
+        return _ScanDir([ents[n] for n in self._disk.permute(norm(p), sorted(ents))])
 
     def __getattr__(self, name):
         return getattr(_real_os, name)
